@@ -17,26 +17,45 @@ type ModbusTCPAssembler struct {
 func (m *ModbusTCPAssembler) ReceiveRead(ctx context.Context, received []byte, bytesRead int) (response []byte, closeConnection bool) {
 	m.received.Write(received)
 
-	n, err := packet.LooksLikeModbusTCP(m.received.Bytes(), false)
-	if err == packet.ErrTCPDataTooShort {
-		return nil, false // wait for more data to arrive
-	} else if err != nil {
-		return err.(*packet.ErrorParseTCP).Bytes(), false
+	// single read can complete more than one packet (client does not have to wait for response before sending next
+	// request), so we handle all complete packets that we have buffered so far
+	for m.received.Len() > 0 {
+		n, err := packet.LooksLikeModbusTCP(m.received.Bytes(), false)
+		if err == packet.ErrTCPDataTooShort {
+			break // wait for more data to arrive
+		}
+		if n == 0 && err != nil {
+			// does not look like Modbus TCP at all. we can not know where the next packet would start
+			m.received.Reset()
+			return append(response, err.(*packet.ErrorParseTCP).Bytes()...), false
+		}
+		if m.received.Len() < n {
+			break // packet is not complete yet. wait for more data to arrive
+		}
+		data := m.received.Next(n)
+		if err != nil { // unsupported function code
+			response = append(response, err.(*packet.ErrorParseTCP).Bytes()...)
+			continue
+		}
+		response = append(response, m.handle(ctx, data)...)
 	}
+	return response, false
+}
 
-	p, err := packet.ParseTCPRequest(m.received.Next(n))
+func (m *ModbusTCPAssembler) handle(ctx context.Context, data []byte) []byte {
+	p, err := packet.ParseTCPRequest(data)
 	if err != nil {
-		return err.(*packet.ErrorParseTCP).Bytes(), false
+		return err.(*packet.ErrorParseTCP).Bytes()
 	}
 
 	resp, err := m.Handler.Handle(ctx, p)
 	if err != nil {
 		var target *packet.ErrorParseTCP
 		if errors.As(err, &target) {
-			return target.Bytes(), false
+			return target.Bytes()
 		}
-		return packet.NewErrorParseTCP(packet.ErrUnknown, err.Error()).Bytes(), false
+		return packet.NewErrorParseTCP(packet.ErrUnknown, err.Error()).Bytes()
 	}
 
-	return resp.Bytes(), false
+	return resp.Bytes()
 }
